@@ -14,13 +14,14 @@ func init() {
 		Run:   checkC05,
 		Explanation: "Uniqueness of a UUIDv4 is trusted; decided is that the code uses one fresh value per acquisition and the same value everywhere in the term: (R1) the Token of every create/takeover payload comes from a uuid.New* call executed in the acquisition attempt that issues the write (not from a field, global or cache); " +
 			"(R2) every store to the token field outside the constructor carries exactly that payload token (through the Marshal/Unmarshal round trip on the takeover path); (R3) every refresh republishes the token field (C01-R3); " +
-			"(R4) the promotion callback receives the value stored to the token field in the same activation, and Token() and Status().Token read that same field.",
+			"(R4) the promotion callback receives the value stored to the token field in the same activation, and Token() and Status().Token read that same field; (R5) the token is published before the claim (C02-R5, shared): a lock-free reader never sees IsLeader()==true with the previous term's (or no) token.",
 		NotDecided: []string{"global uniqueness of UUIDv4 values (probabilistic, trusted)", "that no external writer publishes a colliding token"},
 		Assumptions: []string{"github.com/google/uuid.New returns a fresh value on every call"},
 		Rules: map[string]string{
 			"R1": "origins(payload.Token) of every Create / takeover Update value == {fresh:<one uuid.New* call site>}; that call is in the function issuing the write or in its caller chain (same activation), not a field load",
 			"R2": "origins of every value stored to the token field outside the constructor are fresh:* only and equal the origins of the written payload token (C02-R1 checks equality per call site)",
 			"R3": "origins(payload.Token) of every refresh Update == {field:token}; origins(payload.ID) == {cfg:InstanceID}",
+			"R5": "see C02-R5 (the token store dominates the claim Store(true) in the claim-set unit)",
 			"R4": "OnPromote's token argument is the value stored to the token field (C08-R1); the Token field of the Status() result and Token() load the token field",
 		},
 	})
@@ -151,6 +152,8 @@ func checkC05(c *Ctx) {
 		}
 		c.check(found, "R4", name+"() reads the token field", firstInstr(f), "loads %s: %v", m.path(m.Token), found)
 	}
+	// R5 (shared with C02-R5)
+	claimPublishedLastRule(c, "R5")
 	if st := m.method("Status"); st != nil {
 		// the Token field of the returned struct derives from the token field
 		for _, b := range liveBlocks(st) {
